@@ -8,6 +8,7 @@ CONSTANTS
   MaxBatch = 6
   MaxFail = 2
   MaxStops = 3
+  MaxCancel = 3
   Inflights = {1, 2}
   Hws = {2, 99}
   Caps = {2, 99}
